@@ -162,6 +162,49 @@ fn cmd_run(a: &Args) -> i32 {
     seams::install_panic_hook();
     let t0 = Instant::now();
     let results = run_batch(&property, seed, 0, runs, jobs, budget);
+    let mut results = results;
+    let mut cross_info = serde_json::Map::new();
+    if let Some(files) = a.opts.get("cross") {
+        // C18: digest lines produced by the other build variants for the same run indices
+        for spec in files.split(',').filter(|s| !s.is_empty()) {
+            let (tag, path) = spec.rsplit_once('=').unwrap_or(("variant", spec));
+            let txt = match std::fs::read_to_string(path) {
+                Ok(t) => t,
+                Err(e) => {
+                    println!("HARNESS-ERROR cannot read cross-variant digests {path}: {e}");
+                    return 2;
+                }
+            };
+            let mut compared = 0u64;
+            let mut mismatched = 0u64;
+            for l in txt.lines() {
+                let mut it = l.splitn(4, ' ');
+                let (Some(idx), Some(_scheme), Some(dig), parts) = (it.next(), it.next(), it.next(), it.next()) else { continue };
+                let Ok(idx) = idx.parse::<u64>() else { continue };
+                let Some(r) = results.iter_mut().find(|r| r.index == idx) else { continue };
+                let mine = props::c18_line(&r.scn);
+                let (mdig, mparts) = mine.split_once(' ').unwrap_or((mine.as_str(), ""));
+                compared += 1;
+                if mdig != dig {
+                    mismatched += 1;
+                    let theirs: Vec<&str> = parts.unwrap_or("").split(',').collect();
+                    let ours: Vec<&str> = mparts.split(',').collect();
+                    let diff: Vec<String> = ours.iter().zip(theirs.iter()).filter(|(x, y)| x != y).map(|(x, _)| x.split('=').next().unwrap_or("").to_string()).collect();
+                    let comp = diff.first().map(|d| d.split(':').next().unwrap_or("").to_string()).unwrap_or_else(|| "shape".into());
+                    r.res.violations.push(Violation {
+                        property: property.clone(),
+                        oracle: "cross-variant".into(),
+                        scheme: r.scn.scheme.clone(),
+                        fault: tag.split(':').next().unwrap_or(tag).to_string(),
+                        component: comp,
+                        detail: format!("outputs of run {idx} differ between the simulated build and {tag}: {:?} (digest {mdig} vs {dig})", diff),
+                    });
+                }
+            }
+            cross_info.insert(tag.to_string(), json!({"compared": compared, "mismatched": mismatched}));
+            println!("cross-variant {tag}: {compared} runs compared, {mismatched} mismatched");
+        }
+    }
     let wall = t0.elapsed().as_secs_f64();
 
     // ---- aggregate
@@ -210,6 +253,17 @@ fn cmd_run(a: &Args) -> i32 {
         exit = 1;
         let (r, v) = group[0];
         println!("violation in run {} ({}): {} — {}", r.index, r.scn.scheme, v.signature(), v.detail);
+        if v.oracle == "cross-variant" {
+            // not reproducible inside one build variant: the replay file holds the scenario, and
+            // `./check C18 --replay` re-runs it in all variants
+            let file = ReplayFile { scenario: r.scn.clone(), violation: (*v).clone(), signature: v.signature(), log_digest: String::new(), minimised_from: r.scn.summary(), shrink_executions: 0 };
+            let dir = std::env::var("PCSIM_REPLAYS").unwrap_or_else(|_| "/verif/replays".into());
+            let _ = std::fs::create_dir_all(&dir);
+            let path = format!("{}/{}-{}.json", dir, property, &seams::short_digest(key.as_bytes()));
+            std::fs::write(&path, serde_json::to_string_pretty(&file).unwrap()).expect("cannot write replay file");
+            println!("VIOLATION property={} replay={}", property, path);
+            continue;
+        }
         let (min, execs) = shrink::shrink(&r.scn, &v.signature(), 400);
         let (mres, _) = props::execute(&min, false);
         let mv = mres.violations.iter().find(|x| x.signature() == v.signature()).cloned().unwrap_or_else(|| (*v).clone());
@@ -273,6 +327,7 @@ fn cmd_run(a: &Args) -> i32 {
             "runs_per_scheme": per_scheme,
             "slowest_run_ms": slowest as u64,
             "known_findings_observed": known_hit,
+            "cross_variant": cross_info,
             "real_code": ["ark-poly-commit (all of /repo/poly-commit/src)", "ark-ff", "ark-ec", "ark-poly", "ark-serialize", "ark-crypto-primitives (Poseidon sponge, Merkle tree, SHA-256/Blake2s CRHs)"],
             "stubbed": ["rayon scheduler (deterministic shim, /verif/shims/rayon)", "OS entropy (Hyrax thread_rng behind the pc_verif hook)", "party RNGs (ChaCha20 streams)", "store / channel / I/O endpoints (in-memory with scripted faults)"],
             "exhaustive": false,
@@ -390,6 +445,53 @@ fn cmd_show(a: &Args) -> i32 {
     0
 }
 
+/// C18 cross-variant lines: "<index> <scheme> <digest> <parts>" for the first N runs of the batch.
+fn cmd_c18_digests(a: &Args) -> i32 {
+    let seed = verif_seed(a);
+    let runs: u64 = a.opts.get("runs").and_then(|s| s.parse().ok()).unwrap_or(64);
+    let jobs: usize = a.opts.get("jobs").and_then(|s| s.parse().ok()).unwrap_or(4);
+    seams::install_panic_hook();
+    let next = Arc::new(AtomicUsize::new(0));
+    let out: Arc<Mutex<Vec<(u64, String)>>> = Arc::new(Mutex::new(vec![]));
+    let mut hs = vec![];
+    for _ in 0..jobs.max(1) {
+        let (next, out) = (next.clone(), out.clone());
+        hs.push(std::thread::Builder::new().stack_size(64 << 20).spawn(move || loop {
+            let k = next.fetch_add(1, Ordering::SeqCst) as u64;
+            if k >= runs {
+                break;
+            }
+            let scn = props::generate("C18", run_seed(seed, "C18", k));
+            let line = format!("{} {} {}", k, scn.scheme, props::c18_line(&scn));
+            out.lock().unwrap().push((k, line));
+        }).unwrap());
+    }
+    for h in hs {
+        h.join().expect("worker died");
+    }
+    let mut v = std::mem::take(&mut *out.lock().unwrap());
+    v.sort();
+    for (_, l) in v {
+        println!("{l}");
+    }
+    0
+}
+
+/// digest line of the scenario stored in a replay file (for cross-variant replays)
+fn cmd_c18_one(a: &Args) -> i32 {
+    let path = a.pos.get(0).expect("usage: pcsim c18-one <replay file>");
+    seams::install_panic_hook();
+    let file: ReplayFile = match std::fs::read_to_string(path).map_err(|e| e.to_string()).and_then(|t| serde_json::from_str(&t).map_err(|e| e.to_string())) {
+        Ok(f) => f,
+        Err(e) => {
+            println!("HARNESS-ERROR {e}");
+            return 2;
+        }
+    };
+    println!("0 {} {}", file.scenario.scheme, props::c18_line(&file.scenario));
+    0
+}
+
 fn main() {
     let a = parse_args();
     let code = match a.cmd.as_str() {
@@ -397,6 +499,8 @@ fn main() {
         "replay" => cmd_replay(&a),
         "digests" => cmd_digests(&a),
         "show" => cmd_show(&a),
+        "c18-digests" => cmd_c18_digests(&a),
+        "c18-one" => cmd_c18_one(&a),
         _ => {
             println!("pcsim run|replay|digests|show …  (see /verif/DESIGN.md)");
             2
